@@ -150,6 +150,45 @@ fn e<E: std::fmt::Display>(x: E) -> String {
     format!("{}", x)
 }
 
+/// Like `make`, but identical sub-descriptions inside one value are built ONCE and shared by address
+/// (C11/C19: "shared sub-values").
+pub fn make_shared<S: Store>(d: &mut S, v: &Value, cache: &mut HashMap<String, usize>) -> Result<usize, String> {
+    let key = v.to_string();
+    if let Some(a) = cache.get(&key) {
+        return Ok(*a);
+    }
+    let t = v["t"].as_str().unwrap_or("");
+    let a = match t {
+        "pair" | "concat" | "range" | "slice" | "partial" => {
+            let l = make_shared(d, &v["l"], cache)?;
+            let r = make_shared(d, &v["r"], cache)?;
+            match t {
+                "pair" => d.add_pair((l, r)),
+                "concat" => d.add_concatenation(l, r),
+                "range" => d.add_range(l, r),
+                "slice" => d.add_slice(l, r),
+                _ => d.add_partial(l, r),
+            }
+            .map_err(e)?
+        }
+        "list" => {
+            let items = v["v"].as_array().ok_or("list without v")?;
+            let mut addrs = vec![];
+            for it in items {
+                addrs.push(make_shared(d, it, cache)?);
+            }
+            let mut l = d.start_list(addrs.len()).map_err(e)?;
+            for a in addrs {
+                l = d.add_to_list(l, a).map_err(e)?;
+            }
+            d.end_list(l).map_err(e)?
+        }
+        _ => make(d, v)?,
+    };
+    cache.insert(key, a);
+    Ok(a)
+}
+
 /// Build the described value through the public API; returns its address.
 pub fn make<S: Store>(d: &mut S, v: &Value) -> Result<usize, String> {
     let t = v["t"].as_str().ok_or_else(|| format!("descriptor without t: {}", v))?;
